@@ -41,7 +41,7 @@ MANIFEST = {
     "C13": {"text": "Sinks.v models writer.Sink.Process, FileSink.Process' format selection / special paths / retry, n concurrent Process calls as a "
                     "transition system (look up, lock, byte-by-byte write, unlock) and ChannelSink's select in a timed model; theorems: writer_success_iff, "
                     "writer_success_writes, writer_only_the_value, absent-format / failed-write / short-write errors, default_format_json (both sinks), "
-                    "writes_contiguous (+ _always) for every schedule, filesink_success_iff, filesink_only_the_value, devnull / std bypass, channel_some_arm, "
+                    "writes_contiguous (+ _always) for every schedule, filesink_success_iff, filesink_success_received_partial (+ filesink_retry_exactly_refuted: in the model the retry after a partially failed Write leaves prefix ++ value), filesink_only_the_value, devnull / std bypass, channel_some_arm, "
                     "channel_exactly_one, channel_never_both, channel_bounded_partial (model only); tie: sinksh runs every table of 0..3 formats (values empty / "
                     "1 byte / several) x configured format (unset, 3 present, 1 absent) x 6 writer behaviours (+ nil writer/event/map, 5000-byte value), "
                     "1..16 concurrent Process calls with the stream split back into whole values (thorough: under -race), FileSink on file / /dev/null / "
